@@ -1312,6 +1312,34 @@ GROUPS.append(("FnsWMNew.lean", ["Sds.Model.WM", "Sds.Generated.FnsFromExt", "Sd
 ]))
 
 
+# ---- `skip_option`: the length prefix, `elements * WORD_BYTES`, and `io::copy(&mut reader.by_ref().take(bytes), &mut io::sink())`
+# — the one expression outside the subset, replaced by the NAMED reader operation `copyTakeSink` (GenSupport: consume up to
+# `bytes / 8` elements, report the bytes consumed) — then the comparison that makes a short stream an error
+GROUPS.append(("FnsSkip.lean", ["Sds.Model.Ser", "Sds.Model.GenSupport", "Sds.Generated.BitsFns"], [
+    dict(file="serialize.rs", impl=None, fn="skip_option", name="gen_skip_option", reader="reader", ret=UNIT,
+         source_subst=[(r"io::copy\(&mut reader\.by_ref\(\)\.take\(bytes\), &mut io::sink\(\)\)", "copy_take_sink(reader, bytes)")],
+         calls=dict(LOADS, **{"copy_take_sink": dict(lean="copyTakeSink {0} {1}", ret=W, args=[None, W], load=True)})),
+]))
+
+
+# ---- `bits::select`, both `cfg` alternatives: the block compiled without BMI2 (the SWAR computation, statement by statement; the
+# two `#[cfg(feature = "verif_hooks")] assert!`s are the bounds hooks of the `get_unchecked` reads that follow them, which
+# `tableU` reports as `oob` itself) and the block compiled with it (`_pdep_u64` is the named function `pdep`)
+CFG_BMI2 = r'#\[cfg\(all\(target_arch = "x86_64", target_feature = "bmi2"\)\)\]\s*\{[^{}]*\}'
+CFG_NOT_BMI2 = r'#\[cfg\(not\(all\(target_arch = "x86_64", target_feature = "bmi2"\)\)\)\]\s*\{[^{}]*\}'
+HOOK1 = r'#\[cfg\(feature = "verif_hooks"\)\]\s*assert!\(rank \+ 1 < _PS_OVERFLOW\.len\(\), "verif_hooks: oob"\);'
+HOOK2 = r'#\[cfg\(feature = "verif_hooks"\)\]\s*assert!\(\(relative_rank << 8\) \+ \(\(n >> offset\) as usize & 0xFF\) < _SELECT_IN_BYTE\.len\(\), "verif_hooks: oob"\);'
+GROUPS.append(("FnsSelect.lean", ["Sds.Model.GenSupport", "Sds.Generated.BitsFns"], [
+    dict(file="bits.rs", fn="select", name="gen_select_portable",
+         source_subst=[(CFG_BMI2, ""), (r'#\[cfg\(not\(all\(target_arch = "x86_64", target_feature = "bmi2"\)\)\)\]\s*\{', "{"), (HOOK1, ""), (HOOK2, "")],
+         calls={"_PS_OVERFLOW.get_unchecked": dict(lean="tableU Generated.PS_OVERFLOW {0}", ret=W),
+                "_SELECT_IN_BYTE.get_unchecked": dict(lean="tableU Generated.SELECT_IN_BYTE {0}", ret=W)}),
+    dict(file="bits.rs", fn="select", name="gen_select_bmi2",
+         source_subst=[(CFG_NOT_BMI2, ""), (r'#\[cfg\(all\(target_arch = "x86_64", target_feature = "bmi2"\)\)\]\s*\{', "{")],
+         calls={"core::arch::x86_64::_pdep_u64": dict(lean="pdep {0} {1}", ret=W, args=[W, W], monadic=False)}),
+]))
+
+
 def generate_fn_files(read, consts_by_file):
     """read(rel) -> source text; consts_by_file: {rel: {NAME: int}} (module / associated constants visible in that file)"""
     files = {}
